@@ -92,4 +92,9 @@ META = {
         "level_text": "Exploration of schedules: property-based testing cannot enumerate interleavings of the Go runtime; it owns the schedule at every storage call and at tagged points inside the commit / prune protocol (a generated plan parks and releases threads there, which e.g. places a reader deterministically between ndb.Commit and the publication of the new latest version), and it runs the same generated scripts on the real scheduler under the race detector. Every reader result is compared with the precomputed model of its version, pinned versions must survive prune requests, and the store is re-read completely after each run.",
         "level_note": _TB + "No claim of schedule coverage: in-memory races between two controlled points are visible only to the race detector on the schedules that happen. Open finding F12 (reader of the latest version inside the commit window sees the next version through the fast index; transient) is recognised by its signature and counted. Plans are reproducible only at the granularity of the controlled points; stress failures are reported with scripts and race report but cannot be shrunk.",
     },
+    "C16": {
+        "technique": "differential property testing against the legacy library as oracle (co-process), then model-based stateful testing across the format boundary",
+        "level_text": "Exploration: legacy databases with known contents are produced by the legacy library itself from generated histories (incl. legacy-side deletions, so orphan records and version holes exist); the current library must serve every legacy version with the legacy-reported hash and the model's contents, and a generated continuation (commits on a legacy root, pruning below/at/above the boundary, rollback into the legacy range, reopenings) is checked against the model after every step and through a fresh handle.",
+        "level_note": _TB + "Trusted additionally: iavl v0.20.0 + cometbft-db v0.7.0 as legacy oracle. Open finding F29 (two different legacy nodes of one version re-formatted at the same key) is steered around and counted.",
+    },
 }
